@@ -327,6 +327,8 @@ def oracle(case, out):
     v = []
     if out.startswith("CRASH") or out.startswith("ERR:internal"):
         return [("crash", "the client died / threw internal_error on a conforming swarm: " + out[:160])]
+    if out.startswith("ERR:hang"):
+        return [("hang", "the client did not finish this case within the per-case wall-clock budget (busy loop / dead lock): " + out[:80])]
     if out.startswith("ERR:") or out in ("MISSING", "BADCASE"):
         return [("harness", "harness could not run the case: " + out[:160])]
     ev, done, amb, err = parse_trace(out)
